@@ -266,6 +266,7 @@ def tasks(tier, seed):
                     T.append(Task('plan_on/%s/%s/%s%s' % (sk.name, 'shuffle' if shuffle else 'ordered', slack, '/tied' if tied else ''), h_lrtdp, (sk, shuffle, slack, tied, its),
                                   tier='B', max_paths=12000, deadline_s=500))
         T.append(Task('units/%s' % sk.name, h_unit, (sk,), tier='B'))
+    T.append(Task('U/Q/abstract-next-state-distribution', h_Q_U, (), tier='U', note='unbounded support, uninterpreted model, symbolic discount'))
     T.append(Task('rt/real-seeds-cyclic', rt_real, (seed, 40 if tier == 'quick' else 300), tier='R', kind='rt'))
     return T
 
@@ -279,3 +280,68 @@ MANIFEST_ENTRY = dict(
     note='Bounded: acyclic skeletons (<=4 states) for the symbolic tier, cyclic MDPs only in the run-time tier; termination in general not proved.',
 )
 END_MANIFEST_ENTRY = True
+
+
+def h_Q_U():
+    """LRTDP.Q(s,a) == 0 if s absorbing else sum_i val(i) * (Rw(s,a,key(i)) + gamma * (0 if Abs(key(i)) else Vbar(key(i))))  -- abstract next-state distribution of
+    unbounded support, uninterpreted absorbing predicate / reward / value table, symbolic discount (loop 0 cut, recursive ghost sum)"""
+    import z3, os
+    from symrun.absx import Atom, AbsMap, rsum, fresh_atom, Opaque
+    from symrun.cut import cut, CutSpec
+    from symrun.driver import ROOT
+    I, B, Rl = z3.IntSort(), z3.BoolSort(), z3.RealSort()
+    key, val, Abs, Rw, Vb = z3.Function('key', I, I), z3.Function('val', I, Rl), z3.Function('Abs', I, B), z3.Function('Rw', I, I, I, Rl), z3.Function('Vbar', I, Rl)
+    n = z3.Int('n')
+    S.cur().inputs['n'] = n
+    S.assume(S.SymBool(n >= 0))
+    g = S.real('gamma', 0, 1, lo_strict=True)
+    s, a = fresh_atom('s'), fresh_atom('a')
+    term = lambda i: val(i) * (Rw(s.e, a.e, key(i)) + g.e * z3.If(Abs(key(i)), z3.RealVal(0), Vb(key(i))))
+    Ssum = rsum('qsum', term)
+
+    class Dist:
+        def items(self): return Opaque('items')
+
+    class MDP:
+        discount_rate = g
+        def is_absorbing(self, x): return S.SymBool(Abs(x.e))
+        def next_state_dist(self, x, y): return Dist()
+        def reward(self, x, y, z): return S.SymReal(Rw(x.e, y.e, z.e))
+
+    class Vtab:
+        def __getitem__(self, x): return S.SymReal(Vb(x.e))
+    planner = lr.LRTDP(heuristic=lambda x: 0)
+    planner._set_up_plan_on()
+    planner.res.V = Vtab()
+    ghost, state = {}, {'phase': 'head'}
+
+    def inv(L):
+        if 'kz' not in ghost:
+            return S.eq(L['q'], 0)
+        kk = ghost['kz'] + (1 if state['phase'] == 'back' else 0)
+        return S.eq(L['q'], S.SymReal(Ssum(kk)))
+
+    def havoc(L):
+        kz = z3.Int('ghost_k')
+        S.cur().inputs['ghost_k'] = kz
+        S.assume(S.SymBool(kz >= 0))
+        ghost['kz'] = kz
+        return dict(q=S.SymReal(Ssum(kz)), ns=None, prob=None, future=None)
+
+    def element(L, it):
+        S.assume(S.SymBool(ghost['kz'] < n))
+        state['phase'] = 'back'
+        return (Atom(key(ghost['kz'])), S.SymReal(val(ghost['kz'])))
+    spec = CutSpec(inv=inv, havoc=havoc, element=element, exhausted=lambda L: S.SymBool(ghost['kz'] == n))
+    fcut, text, info = cut(lr.LRTDP.Q, {0: spec}, dump_dir=os.path.join(ROOT, 'evidence', 'extracted'))
+    q = fcut(planner, MDP(), s, a)
+    S.check('U:Q:0-at-absorbing-states;else-probability-weighted-lookahead-with-absorbing-successors-at-0(any-support-size)',
+            S.eq(q, S.If(S.SymBool(Abs(s.e)), 0, S.SymReal(Ssum(n)))))
+
+
+SENTINELS = [
+    Sentinel('U:Q-uses-the-stored-value-of-absorbing-successors', 'msdm.algorithms.lrtdp', "            if not mdp.is_absorbing(ns):\n                future = self.res.V[ns]",
+             "            if True:\n                future = self.res.V[ns]", ['U/Q/abstract-next-state-distribution']),
+    Sentinel('U:Q-drops-the-discount', 'msdm.algorithms.lrtdp', "q += prob * (mdp.reward(s, a, ns) + mdp.discount_rate*future)", "q += prob * (mdp.reward(s, a, ns) + future)",
+             ['U/Q/abstract-next-state-distribution']),
+]
